@@ -268,6 +268,10 @@ def site(case):
             from sigma.correlations import SigmaCorrelationCondition
             SigmaCorrelationCondition.from_dict({x: 1 for x in case["keys"]})
             return {"ok": ""}
+        if k == "corrd":
+            from sigma.correlations import SigmaCorrelationCondition
+            c = SigmaCorrelationCondition.from_dict({kk: v for kk, v in case["items"]})
+            return {"ok": f"{c.op.name.lower()} {c.count}"}
         if k == "flags":
             from sigma.types import SigmaRegularExpression, SigmaRegularExpressionFlag as F
             fl = {"i": F.IGNORECASE, "m": F.MULTILINE, "s": F.DOTALL}
